@@ -1,5 +1,6 @@
 (* C05 — equal node hash implies equal computation (no false cache hit). *)
 From Connectome Require Import Values Attrs VM Edges EdgesGen HashSound HashFacts SpecEq EqFacts Total GraphHashModel StaticHash MakerFacts Examples.
+From Connectome Require NodeHashGen.
 From Connectome Require ColStore ColumnsGen Columns ColumnsFacts EqFacts.
 Local Open Scope list_scope.
 
@@ -127,3 +128,12 @@ Theorem C05_f11_witness_meets_the_other_assumptions :
   ColumnsFacts.f11_v c k = ColumnsFacts.f11_v c' k'.
 Proof. exact ColumnsFacts.f11_sound. Qed.
 Print Assumptions C05_f11_witness_meets_the_other_assumptions.
+
+(* The node-hash values this file reasons about are the ones engine/node_hash.py builds (regenerated, Gen/NodeHashGen.v):
+   tags 0-3 for leaf / apply / graph / custom, the components of each `value` tuple in order, and == on `value`. *)
+Theorem C05_node_hash_values_are_translated :
+  NodeHashGen.hash_tags = [0; 1; 2; 3] /\ NodeHashGen.LeafHash_value = ["tag"; "data"]
+  /\ NodeHashGen.ApplyHash_value = ["tag"; "func"; "args.value"; "kw_names"] /\ NodeHashGen.GraphHash_value = ["tag"; "output.value"]
+  /\ NodeHashGen.CustomHash_value = ["tag"; "marker"; "*children.value"] /\ NodeHashGen.nodehash_eq_compares = "value".
+Proof. repeat split; reflexivity. Qed.
+Print Assumptions C05_node_hash_values_are_translated.
